@@ -66,6 +66,11 @@ func (fr *frame) get(key ssa.Value) value {
 		return fr.ex.global(key)
 	}
 	if r, ok := fr.env[key]; ok {
+		if lz, isLazy := r.(*lazyStr); isLazy {
+			s := fr.ex.forceLazy(lz)
+			fr.env[key] = s
+			return s
+		}
 		return r
 	}
 	panic(fmt.Sprintf("get: no value for %T: %v in %s", key, key.Name(), fr.fn))
@@ -406,6 +411,9 @@ func (ex *Exec) runFrame(fr *frame) {
 			// pathEnd and engine-internal errors propagate untouched
 			panic(r)
 		}
+		if ex.panicFrom == "" {
+			ex.panicFrom = ex.pkgFuncOf(fr)
+		}
 		ex.top = fr
 		fr.panicking = true
 		fr.panic = r
@@ -449,7 +457,7 @@ func (ex *Exec) runFrame(fr *frame) {
 		}
 		ex.steps += len(block.Instrs) - n
 		if ex.steps > ex.eng.MaxSteps {
-			panic(pathEnd{kind: endUnwind, msg: fmt.Sprintf("step bound %d exceeded in %s", ex.eng.MaxSteps, fr.fn)})
+			panic(pathEnd{kind: endUnwind, msg: fmt.Sprintf("step bound %d exceeded in %s", ex.eng.MaxSteps, ex.phaseOf(fr))})
 		}
 		for _, instr := range block.Instrs[n:] {
 			if ex.visitInstr(fr, instr) {
@@ -474,6 +482,7 @@ func zeroResult(fn *ssa.Function) value {
 func (ex *Exec) doRecover(caller *frame) value {
 	if caller != nil && !caller.panicking && caller.caller != nil && caller.caller.panicking {
 		caller.caller.panicking = false
+		ex.panicFrom = ""
 		p := caller.caller.panic
 		caller.caller.panic = nil
 		switch p := p.(type) {
@@ -852,4 +861,27 @@ func posString(fset *token.FileSet, pos token.Pos) string {
 	}
 	p := fset.Position(pos)
 	return fmt.Sprintf("%s:%d", p.Filename[strings.LastIndex(p.Filename, "/")+1:], p.Line)
+}
+
+// phaseOf names the function at which a bound was hit, and whether the VM dispatch loop is active.
+func (ex *Exec) phaseOf(fr *frame) string {
+	for f := fr; f != nil; f = f.caller {
+		if f.fn != nil && f.fn.Name() == "exec" {
+			return "(*VM).exec [run phase]"
+		}
+	}
+	return fr.fn.String() + " [front end]"
+}
+
+// pkgFuncOf names the innermost function of the package under test on fr's call chain.
+func (ex *Exec) pkgFuncOf(fr *frame) string {
+	for f := fr; f != nil; f = f.caller {
+		if f.fn != nil && f.fn.Pkg == ex.eng.Pkg {
+			return containsTrim(f.fn.String())
+		}
+		if f.fn != nil && f.fn.Parent() != nil && f.fn.Parent().Pkg == ex.eng.Pkg {
+			return containsTrim(f.fn.String())
+		}
+	}
+	return "?"
 }
